@@ -48,6 +48,7 @@ type Options struct {
 	Concrete    *Model // when set, inputs are taken from this model (conformance mode)
 	Deadline    time.Time
 	SecondCheck bool
+	KnownSites  []KnownFinding
 }
 
 // Input describes one symbolic input created by the harness.
@@ -582,6 +583,13 @@ func (e *Engine) prove(st *State, kind, label string, cond *Term, ins ssa.Instru
 	case Unsat:
 		ob.Verdict = "holds"
 	case Sat:
+		if id := e.knownSite(kind, ob.Pos); id != "" {
+			ob.Verdict = "known-finding"
+			ob.KnownID = id
+			inputs, _ := e.decodeModel(vals)
+			e.KnownSeen[id] = fmt.Sprintf("%s (%s) at %s, e.g. %v", label, kind, ob.Pos, compactInputs(inputs))
+			break
+		}
 		ob.Verdict = "violated"
 		if os.Getenv("GOSMT_DEBUG") != "" {
 			fmt.Printf("DEBUG violated %s at %s\n", label, ob.Pos)
@@ -661,6 +669,27 @@ func (e *Engine) crossCheck(pc []*Term, q *Term, ob *Obligation) {
 		ob.Verdict = "inconclusive"
 		ob.Detail = "solver disagreement: z3-5.1.0 unsat, z3-4.8.12 sat"
 	}
+}
+
+// knownSite: is a violated obligation of this kind at this position attributed to an open finding?
+func (e *Engine) knownSite(kind, pos string) string {
+	for _, kf := range e.opts.KnownSites {
+		okKind := len(kf.Kinds) == 0
+		for _, k := range kf.Kinds {
+			if k == kind {
+				okKind = true
+			}
+		}
+		if !okKind {
+			continue
+		}
+		for _, s := range kf.Sites {
+			if strings.Contains(pos, s) {
+				return kf.ID
+			}
+		}
+	}
+	return ""
 }
 
 // terminate records the end of a path because of a panic.
